@@ -26,7 +26,7 @@ def callee_closure(mir, entries):
                         m = re.match(r'ZeroSized: \{closure@(.*)\}$', o[1])
                         if m and m.group(1) in mir.closures: todo.append(mir.closures[m.group(1)])
                 d = eng.lookup_callee(c)
-                if d and not (d in mir.derived and d.endswith(('::clone', '::eq', '::default'))): todo.append(d); continue
+                if d and not (d in mir.derived and d.endswith(('::clone', '::eq', '::ne'))): todo.append(d); continue
                 if any(p.fullmatch(c) for p, _ in eng.models):
                     ext.setdefault(('MODEL', c), set()).add(n); continue
                 if d: todo.append(d)
